@@ -428,7 +428,12 @@ class Grounder(engines.engine.Engine, CompilerMixin):
     def resulting_problem_kind(
         problem_kind: ProblemKind, compilation_kind: Optional[CompilationKind] = None
     ) -> ProblemKind:
-        return problem_kind.clone()
+        new_kind = problem_kind.clone()
+        if new_kind.has_general_numeric_planning():
+            # substituting parameters and static fluents can turn a general numeric
+            # effect into a simple one
+            new_kind.set_problem_type("SIMPLE_NUMERIC_PLANNING")
+        return new_kind
 
     def _compile(
         self,
